@@ -47,7 +47,7 @@
 #define STK_BASE 131072
 #define MAXEV 200000
 #define RUNAWAY 20000
-#define CHILD_TIMEOUT 20
+#define CHILD_TIMEOUT 10
 
 typedef struct { int fid; long off; myth_thread_t self; } inv_t;
 static inv_t g_inv[MAXEV];
